@@ -4,6 +4,7 @@ import (
 	"flag"
 	"fmt"
 	"math/rand"
+	"sync/atomic"
 	"time"
 
 	"verif/cqlclient"
@@ -177,6 +178,33 @@ func init() {
 				}
 			}
 			settle()
+			// a registered client whose connection dies while its reader is busy (a USE that has to create a slow session):
+			// it stays registered for a while with a dead connection; events emitted meanwhile must still reach the others
+			if len(clients) > 0 {
+				vc, err := e.StartedClient(primitive.ProtocolVersion4, "")
+				if err == nil {
+					t.Emit("Hello", "c", vc.ID, "ver", int(vc.Version))
+					t.Emit("Register", "c", vc.ID, "schema", true)
+					if r, err := vc.Roundtrip(frame.NewFrame(vc.Version, 5, &message.Register{EventTypes: []primitive.EventType{primitive.EventTypeSchemaChange}}), "", "register", 5*time.Second); err == nil && r.Kind == "ready" {
+						t.Emit("RegisterAck", "c", vc.ID)
+					}
+					atomic.StoreInt64((*int64)(&e.C.SlowStart), int64(400*time.Millisecond))
+					_ = vc.Send(frame.NewFrame(vc.Version, 6, &message.Query{Query: fmt.Sprintf("USE ks_slow%d", r), Options: &message.QueryOptions{Consistency: primitive.ConsistencyLevelOne}}), "", "use-slow")
+					time.Sleep(30 * time.Millisecond)
+					vc.Close()
+					st.Closes++
+					for b := 0; b < 12; b++ {
+						nev++
+						if e.C.EmitEvent(fmt.Sprintf("e%d", nev), "schema", schemaEvent(rnd, nev)) > 0 {
+							st.Emits++
+						}
+						st.Schema++
+						time.Sleep(15 * time.Millisecond)
+					}
+					atomic.StoreInt64((*int64)(&e.C.SlowStart), 0)
+					settle()
+				}
+			}
 			// burst: many schema changes back to back (a DROP KEYSPACE with many tables); each must still reach every
 			// registered client exactly once
 			// (one write: the proxy's reader finds the frames back to back, faster than the cluster loop fans them out)
